@@ -212,6 +212,8 @@ func Eval(t *Term, env map[string]uint64) (uint64, bool) {
 			r = uint64(int64(f64(a[0], ev(a[0])))) & m
 		case "fp.to_ubv":
 			r = uint64(f64(a[0], ev(a[0]))) & m
+		case "dec":
+			r = DecimalValue(sgn(ev(a[0]), 64), x.P[0])
 		case "fp.to_fp":
 			u := f64(a[0], ev(a[0]))
 			if x.W == 64 {
